@@ -829,7 +829,7 @@ pub enum InsAt {
 pub enum VStep {
     /// `Text::insert` of `chunk` at the start, at `len / 2` (needs `len >= 2`) or at the end.
     Ins { doc: u64, at: InsAt, chunk: String },
-    /// `Text::remove_range(_, 1)` of the first or of the last character.
+    /// `Text::remove_range` of the first or of the last character.
     Del { doc: u64, last: bool },
     /// `to.apply_update(from.encode(sv))` where `sv` is the current state
     /// vector of `to`, or (`old`) the one `to` had before its state vector
@@ -956,8 +956,8 @@ impl SvCase {
             steps.push(match kind {
                 "insert" => {
                     let chunk = st.get("chunk").and_then(|c| c.as_str()).ok_or_else(|| format!("{}.chunk missing", what))?;
-                    if chunk.is_empty() || !chunk.is_ascii() {
-                        return Err(format!("{}.chunk: non-empty ASCII text expected", what));
+                    if chunk.is_empty() {
+                        return Err(format!("{}.chunk: non-empty text expected", what));
                     }
                     VStep::Ins {
                         doc: client("client")?,
@@ -1231,23 +1231,26 @@ impl SvCase {
                     let p = &mut peers[(*doc - 1) as usize];
                     let before = p.view();
                     let sv_before = p.sv();
-                    let len = before.text.len();
-                    let index = match pos {
+                    // positions are character boundaries; offsets are UTF-8 bytes (OffsetKind::Bytes)
+                    let chars: Vec<char> = before.text.chars().collect();
+                    let ci = match pos {
                         InsAt::Start => 0,
-                        InsAt::End => len,
+                        InsAt::End => chars.len(),
                         InsAt::Mid => {
-                            if len < 2 {
+                            if chars.len() < 2 {
                                 return Ok(false);
                             }
-                            len / 2
+                            chars.len() / 2
                         }
                     };
+                    let index: usize = chars[..ci].iter().map(|c| c.len_utf8()).sum();
                     at("Text::insert");
                     p.text.insert(&mut p.doc.transact_mut(), index as u32, chunk);
                     let after = p.view();
                     let want = format!("{}{}{}", &before.text[..index], chunk, &before.text[index..]);
                     let mut want_sv = before.sv.clone();
-                    *want_sv.entry(p.client).or_insert(0) += chunk.len() as u32;
+                    // clocks count UTF-16 units
+                    *want_sv.entry(p.client).or_insert(0) += chunk.encode_utf16().count() as u32;
                     if after.text != want || after.sv != want_sv || after.ds != before.ds {
                         return Err(fail(
                             "a local insertion does not have its sequential effect",
@@ -1266,16 +1269,19 @@ impl SvCase {
                 VStep::Del { doc, last } => {
                     let p = &mut peers[(*doc - 1) as usize];
                     let before = p.view();
-                    let len = before.text.len();
-                    if len == 0 || (*last && len == 1) {
+                    let chars: Vec<char> = before.text.chars().collect();
+                    if chars.is_empty() || (*last && chars.len() == 1) {
                         return Ok(false);
                     }
-                    let index = if *last { len - 1 } else { 0 };
+                    let ci = if *last { chars.len() - 1 } else { 0 };
+                    let index: usize = chars[..ci].iter().map(|c| c.len_utf8()).sum();
+                    let width = chars[ci].len_utf8();
+                    let units = chars[ci].len_utf16();
                     at("Text::remove_range");
-                    p.text.remove_range(&mut p.doc.transact_mut(), index as u32, 1);
+                    p.text.remove_range(&mut p.doc.transact_mut(), index as u32, width as u32);
                     let after = p.view();
-                    let want = format!("{}{}", &before.text[..index], &before.text[index + 1..]);
-                    if after.text != want || after.sv != before.sv || after.ds.len() != before.ds.len() + 1 || !before.ds.is_subset(&after.ds) {
+                    let want = format!("{}{}", &before.text[..index], &before.text[index + width..]);
+                    if after.text != want || after.sv != before.sv || after.ds.len() != before.ds.len() + units || !before.ds.is_subset(&after.ds) {
                         return Err(fail(
                             "a local removal does not have its sequential effect",
                             "Text::remove_range",
@@ -1284,7 +1290,7 @@ impl SvCase {
                                 ("before", before.json()),
                                 ("text", J::str(&want)),
                                 ("state_vector", sv_json(&before.sv)),
-                                ("delete_set_size", J::Num(before.ds.len() as i64 + 1)),
+                                ("delete_set_size", J::Num((before.ds.len() + units) as i64)),
                             ]),
                             after.json(),
                         ));
@@ -1365,6 +1371,8 @@ impl SvCase {
     }
 }
 
+/// An astral-plane character: 4 UTF-8 bytes, 2 UTF-16 units (= 2 clocks).
+const ASTRAL: char = '\u{1F600}';
 /// At most this many edit steps per script.
 const SV_MAX_EDITS: usize = 4;
 /// Script length (edit and sync steps together) for two and for three replicas.
@@ -1375,6 +1383,10 @@ const SV_DEPTH_3: usize = 4;
 /// the script (`a..`, `bb`, ..) so that every insertion is recognisable.
 #[derive(Clone, Copy, Debug)]
 enum Tmpl {
+    /// replica, position, chunk kind: 1 = one letter, 2 = the letter twice,
+    /// 3 = one astral character, 4 = the astral character and the letter
+    /// (kind 4 is not part of the default alphabet: the run has to stay
+    /// within its time budget; `replay` accepts any chunk)
     Ins(u64, InsAt, usize),
     Del(u64, bool),
     Sync(u64, u64, bool),
@@ -1386,6 +1398,7 @@ fn sv_alphabet(docs: u64) -> Vec<Tmpl> {
         out.push(Tmpl::Ins(d, InsAt::Start, 1));
         out.push(Tmpl::Ins(d, InsAt::End, 2));
         out.push(Tmpl::Ins(d, InsAt::Mid, 1));
+        out.push(Tmpl::Ins(d, InsAt::Start, 3));
         out.push(Tmpl::Del(d, false));
         out.push(Tmpl::Del(d, true));
     }
@@ -1405,11 +1418,19 @@ fn instantiate(script: &[Tmpl]) -> Vec<VStep> {
         .iter()
         .enumerate()
         .map(|(i, t)| match *t {
-            Tmpl::Ins(doc, at, n) => VStep::Ins {
-                doc,
-                at,
-                chunk: std::iter::repeat((b'a' + i as u8) as char).take(n).collect(),
-            },
+            Tmpl::Ins(doc, at, kind) => {
+                let letter = (b'a' + i as u8) as char;
+                VStep::Ins {
+                    doc,
+                    at,
+                    chunk: match kind {
+                        1 => letter.to_string(),
+                        2 => format!("{}{}", letter, letter),
+                        3 => ASTRAL.to_string(),
+                        _ => format!("{}{}", ASTRAL, letter),
+                    },
+                }
+            }
             Tmpl::Del(doc, last) => VStep::Del { doc, last },
             Tmpl::Sync(from, to, old) => VStep::Sync { from, to, old },
         })
